@@ -272,27 +272,55 @@ Proof.
   unfold m_roll at 1 3. rewrite (roll_axis_ok_int t n sh Hb). cbn [bind].
   destruct (fits (DInt t) sh) eqn:Fs; cbn [andb negb]; [|right; reflexivity].
   destruct (fits (DInt t) (n + sh)) eqn:Fns; cbn [negb]; [|right; reflexivity].
-  unfold s_roll_scalar_shift_is_np64, s_roll_add_np, iarr_np. cbn [tdt tv].
-  destruct (sg t) eqn:Hs.
-  2:{ (* unsigned: the in-place add of an int64 scalar is refused; the handler raises ValueError *)
-      right. rewrite (promote_unsigned_i64 t St Hs). cbn [bind].
-      unfold s_roll_handler, is_unsigned. rewrite Hs. reflexivity. }
-  left. rewrite (promote_signed_i64 t St Hs). cbn [same_kind sg]. rewrite Hs. cbn [orb bind].
-  unfold m_roll. rewrite roll_axis_ok_inf. cbn [bind negb].
-  unfold s_roll_scalar_shift_is_np64, s_roll_add_np, iarr_np, s_roll_mod, iarr_py, arr_py.
-  cbn [tdt tv promote same_kind bind].
-  rewrite Hm. cbn [fits rmap tv]. f_equal. rewrite !map_map.
-  eapply map_ext_Forall; [|exact Hc]. cbn beta. intros x Hx.
-  change (wr DInf (np_mod (wr DInf (wr DInf (x + sh))) n)) with (np_mod (x + sh) n).
-  assert (Ft : fits (DInt t) (x + sh) = true) by (eapply fits_between; [exact Fs|exact Fns|lia]).
-  pose proof (range_in_i64 t St) as [Hlo Hhi]. specialize (Hhi Hs).
-  assert (F64 : fits (DInt i64) (x + sh) = true).
-  { apply fits_iff in Ft. apply fits_iff. cbn. lia. }
-  rewrite (wr_fits i64 (x + sh) ltac:(cbn; lia) F64).
-  rewrite (wr_fits t (x + sh) Hb Ft).
-  unfold np_mod. destruct (Z.eqb_spec n 0); [lia|].
-  apply wr_fits; [exact Hb|]. apply (fits_le t n); [exact Hb|exact Hm|].
-  pose proof (Z.mod_pos_bound (x + sh) n ltac:(lia)). lia.
+  (* the reference run *)
+  assert (Einf : rmap tv (m_roll DInf n sh c) = Ok (map (fun x => (x + sh) mod n) c)).
+  { unfold m_roll. rewrite roll_axis_ok_inf. cbn [bind negb].
+    unfold s_roll_scalar_shift_is_np64, s_roll_add_np, iarr_np, s_roll_mod, iarr_py, arr_py.
+    cbn [tdt tv promote same_kind bind fits rmap]. f_equal. rewrite map_map. apply map_ext. intros x.
+    change (wr DInf (np_mod (wr DInf (wr DInf (x + sh))) n)) with (np_mod (x + sh) n).
+    unfold np_mod. destruct (Z.eqb_spec n 0); [lia|reflexivity]. }
+  rewrite Einf. clear Einf.
+  (* every intermediate x + sh, x in [0, n), lies between sh and n + sh: representable in t *)
+  assert (Hval : forall x, 0 <= x < n ->
+            wr (DInt t) (np_mod (wr (DInt t) (x + sh)) n) = (x + sh) mod n /\ fits (DInt t) (x + sh) = true).
+  { intros x Hx.
+    assert (Ft : fits (DInt t) (x + sh) = true) by (eapply fits_between; [exact Fs|exact Fns|lia]).
+    split; [|exact Ft]. rewrite (wr_fits t (x + sh) Hb Ft).
+    unfold np_mod. destruct (Z.eqb_spec n 0); [lia|].
+    apply wr_fits; [exact Hb|]. apply (fits_le t n); [exact Hb|exact Hm|].
+    pose proof (Z.mod_pos_bound (x + sh) n ltac:(lia)). lia. }
+  unfold s_roll_scalar_shift_is_np64, s_roll_add_np, iarr_np, np_int_type. cbn [tdt tv].
+  pose proof (range_in_i64 t St) as [Hlo Hhi].
+  destruct (in_range_wb 64 true sh) eqn:K.
+  - (* the shift became an int64 scalar *)
+    destruct (sg t) eqn:Hs.
+    2:{ (* unsigned: the in-place add of an int64 scalar is refused; the handler raises ValueError *)
+        right. rewrite (promote_unsigned_i64 t St Hs). cbn [bind].
+        unfold s_roll_handler, is_unsigned. rewrite Hs. reflexivity. }
+    left. specialize (Hhi eq_refl).
+    rewrite (promote_signed_i64 t St Hs). cbn [same_kind sg]. rewrite Hs. cbn [orb bind].
+    unfold s_roll_mod, iarr_py, arr_py. cbn [tdt tv]. rewrite Hm. cbn [rmap tv]. f_equal. rewrite !map_map.
+    eapply map_ext_Forall; [|exact Hc]. cbn beta. intros x Hx.
+    destruct (Hval x Hx) as [Hv Ft].
+    assert (F64 : fits (DInt i64) (x + sh) = true).
+    { apply fits_iff in Ft. apply fits_iff. cbn. lia. }
+    rewrite (wr_fits i64 (x + sh) ltac:(cbn; lia) F64). exact Hv.
+  - (* 2^63 <= shift: a uint64 scalar; the guard lets it through for uint64 coordinates only *)
+    left. apply fits_iff in Fs.
+    assert (Hsh : 2 ^ 63 <= sh).
+    { destruct (Z.le_gt_cases (2 ^ 63) sh) as [H|H]; [exact H|exfalso].
+      assert (in_range_wb 64 true sh = true); [|congruence].
+      apply in_range_wb_spec. unfold in_range_w, ilo, ihi. cbn. lia. }
+    assert (Ht : t = u64).
+    { destruct t as [b s]. unfold std in St. cbn in St. unfold ihi in Fs, Hhi. cbn [sg bits] in *.
+      destruct s; [specialize (Hhi eq_refl); lia|].
+      destruct St as [E|[E|[E|E]]]; subst b; cbn in Fs; try lia. reflexivity. }
+    subst t. cbn [promote promote_i sg bits u64 Bool.eqb same_kind orb negb bind].
+    unfold s_roll_mod, iarr_py, arr_py. cbn [tdt tv]. rewrite Hm. cbn [rmap tv]. f_equal. rewrite !map_map.
+    eapply map_ext_Forall; [|exact Hc]. cbn beta. intros x Hx.
+    destruct (Hval x Hx) as [Hv Ft].
+    change (DInt {| bits := Z.max 64 64; sg := false |}) with (DInt u64).
+    rewrite (wr_fits u64 (x + sh) ltac:(cbn; lia) Ft). exact Hv.
 Qed.
 
 Example width_irrelevant_roll_nonvacuous :
@@ -300,7 +328,8 @@ Example width_irrelevant_roll_nonvacuous :
   rmap tv (m_roll (DInt i8) 100 (-100) [0; 5; 99]) = Ok [0; 5; 99] /\
   rmap tv (m_roll (DInt i8) 100 27 [0; 5; 99]) = Ok [27; 32; 26] /\
   m_roll (DInt i8) 100 (-200) [0; 5; 99] = Raise ValueError /\
-  m_roll (DInt u8) 100 27 [0; 5; 99] = Raise ValueError.
+  m_roll (DInt u8) 100 27 [0; 5; 99] = Raise ValueError /\
+  rmap tv (m_roll (DInt u64) 3 9223372036854775808 [0; 1; 2]) = Ok [2; 0; 1].
 Proof. repeat split; try reflexivity; [unfold std; cbn; lia|repeat constructor; lia]. Qed.
 
 (* a tuple of shifts (Python ints), several axes *)
